@@ -171,7 +171,17 @@ impl<T: Qcow2IoOps> Qcow2Dev<T> {
         buf: &mut [u8],
     ) -> Qcow2Result<usize> {
         match mapping.cluster_offset {
-            Some(off) => self.call_read(off + off_in_cls as u64, buf).await,
+            Some(off) => {
+                // the host file may end inside (or before) an allocated
+                // cluster that was only zeroed by hole punching and partly
+                // written: the part beyond the end of file reads as zero
+                let done = self.call_read(off + off_in_cls as u64, buf).await?;
+                if done < buf.len() {
+                    let tail = &mut buf[done..];
+                    zero_buf!(tail);
+                }
+                Ok(buf.len())
+            }
             None => Err("DataFile mapping: None offset None".into()),
         }
     }
